@@ -221,6 +221,8 @@ class Goal:
         self.space, self.target, self.radius = space, target, radius
         self.fault = fault
         self.calls = 0
+        self.draws = 0
+        self.cycle = []
 
     def is_satisfied(self, s):
         self.calls += 1
@@ -234,6 +236,10 @@ class Goal:
         return max(0.0, self.space.distance(self.target, s) - self.radius)
 
     def sample_goal(self):
+        # a stateful sampler when the scenario gives a list: the i-th call returns cycle[i mod n]
+        self.draws += 1
+        if self.cycle:
+            return self.cycle[(self.draws - 1) % len(self.cycle)]
         return self.target
 
 
@@ -263,6 +269,7 @@ def run_scenario(scn, validity=None, goal_fault=None, log=None, goal_ref=None):
 
     world = world_of(0)
     goal = Goal(space, dec(spec, prob["goal"]["target"]), prob["goal"]["radius"], goal_fault)
+    goal.cycle = [dec(spec, c) for c in prob["goal"].get("cycle", [])] if prob["goal"].get("sampler") == "Cycle" else []
     if goal_ref is not None:
         goal_ref[0] = goal
     start = dec(spec, prob["starts"][0])
